@@ -128,13 +128,14 @@ def main(args: List[str] = tuple(sys.argv[1:])):
 
     settings_obj = dict_to_settings(settings_dict)
 
-    # A single string instead of a list of patterns would be taken apart
-    # into one pattern per character below, reject it like any other
-    # value of the wrong type
+    # The filters of every source are used, but only the value of the
+    # highest-priority source was validated above. A single string would
+    # be taken apart into one pattern per character below and a mapping
+    # into its keys, reject them like any other value of the wrong type
     for filters, _ in settings["input"]["exclude_filters"].resolve():
-        if isinstance(filters, (str, bytes)):
+        if filters is not None and not isinstance(filters, (list, tuple)):
             raise ConfigTypeError(
-                f"input.exclude_filters: must be a list of patterns, not the string {filters!r}")
+                f"input.exclude_filters: must be a list of patterns, not {filters!r}")
 
     # Concatenate all exclude filters rather than overriding the entire list
     settings_obj.input.exclude_filters = list(
